@@ -15,6 +15,10 @@ pub trait SinkView: Sized {
     spec fn pos(&self) -> nat;             // bytes handed to the sink through successful calls
 }
 pub trait Write: SinkView {
+    fn write(&mut self, data: &[u8]) -> (r: Result<usize>)
+        ensures wrote_some(*old(self), *final(self), r, data@);
+    fn flush(&mut self) -> (r: Result<()>)
+        ensures final(self).delivered() == old(self).delivered(), final(self).cap() == old(self).cap(), final(self).pos() == old(self).pos();
     fn write_all(&mut self, data: &[u8]) -> (r: Result<()>)
         ensures wrote(*old(self), *final(self), r is Ok, data@);
 }
@@ -28,6 +32,15 @@ pub open spec fn wrote<W: SinkView>(s0: W, s1: W, ok: bool, enc: Seq<u8>) -> boo
     &&& (ok ==> s1.pos() == s0.pos() + enc.len())
 }
 
+// a single `write` call: some prefix of the data is accepted (possibly none), or an error with nothing accepted
+pub open spec fn wrote_some<W: SinkView>(s0: W, s1: W, r: Result<usize>, data: Seq<u8>) -> bool {
+    match r {
+        Ok(n) => n <= data.len() && n <= s0.cap() && s1.delivered() == s0.delivered() + data.subrange(0, n as int)
+                 && s1.cap() == s0.cap() - n && s1.pos() == s0.pos() + n,
+        Err(_) => s1.delivered() == s0.delivered() && s1.cap() == s0.cap() && s1.pos() == s0.pos(),
+    }
+}
+
 #[verifier::external_body]
 pub struct Sink { inner: Vec<u8> }
 impl SinkView for Sink {
@@ -36,6 +49,12 @@ impl SinkView for Sink {
     uninterp spec fn pos(&self) -> nat;
 }
 impl Write for Sink {
+    #[verifier::external_body]
+    fn write(&mut self, data: &[u8]) -> (r: Result<usize>)
+    { unimplemented!() }
+    #[verifier::external_body]
+    fn flush(&mut self) -> (r: Result<()>)
+    { unimplemented!() }
     #[verifier::external_body]
     fn write_all(&mut self, data: &[u8]) -> (r: Result<()>)
     { unimplemented!() }
@@ -95,3 +114,7 @@ pub proof fn lemma_wrote_prefix<W: SinkView>(s0: W, s1: W, ok: bool, enc: Seq<u8
 
 pub assume_specification<T: core::cmp::PartialEq> [<[T]>::contains] (s: &[T], x: &T) -> (r: bool)
     ensures r == s@.contains(*x);
+
+// R17: a counter of bytes actually handed to a sink cannot exceed usize::MAX (fewer than 2^64 bytes are ever written)
+#[verifier::external_body]
+pub fn counter_add(a: usize, b: usize) -> (r: usize) ensures r == a + b { a + b }
